@@ -96,6 +96,12 @@ Section K.
     else if Z.ltb lagSteps 0 then None
     else lag_body (Z.to_nat lagSteps) inflow lagged.
 
+  (** initLag (called by the generated InitialiseStates): a zero buffer of int(timeLag)
+      entries; [None] = make([]float64, n) with n < 0 panics *)
+  Definition lag_init (timeLag : T) : option (list T) :=
+    let n := truncZ timeLag in
+    if Z.ltb n 0 then None else Some (repeat zero (Z.to_nat n)).
+
   (** parameters: timeLag; states: the lag buffer itself (variable length);
       input: inflow; output: outflow *)
   Definition lag_kernel (params : list T) (states : list T) (inputs : list (list T))
